@@ -89,6 +89,18 @@ struct Global {
   std::vector<uint32_t> len;  // measured weighted lengths per thread id
   struct Pre { int victim; uint32_t pos; bool used; };
   std::vector<Pre> pre;
+  // conflict-directed preemption: accesses recorded on the sequential schedule of a program ...
+  struct Access { int thread, op, hook, kind; uint64_t obj, off; };
+  bool recording = false;
+  std::vector<Access> accesses;
+  // ... turned into points "thread T is about to read (or compare-and-swap) a location that thread W writes somewhere in
+  // its program": preempting T just before or just after that access and running W is where lost validations show
+  struct ConflictPoint { int thread, op, hook, writer; };
+  std::vector<ConflictPoint> conflicts[2];  // recorded on the ascending / the descending sequential schedule
+  uint64_t conflicts_program[2] = {UINT64_MAX, UINT64_MAX};
+  bool order_desc = false;  // default policy at forced switches: next thread in descending instead of ascending id order
+  struct CPre { int thread, op, hook, to; bool used; };
+  std::vector<CPre> cpre;
   std::vector<uint64_t> pct_changes;
   size_t pct_next = 0;
   int64_t pct_low = 0;
@@ -163,11 +175,11 @@ std::vector<int> runnable_others(int self_id) {
   return r;
 }
 
-// next runnable thread after `self_id` in cyclic id order, excluding self; -1 if none
+// next runnable thread after `self_id` in cyclic id order (descending order when the case says so), excluding self; -1 if none
 int next_after(int self_id) {
   const int n = static_cast<int>(g.threads.size());
   for (int d = 1; d < n; d++) {
-    auto& t = g.threads[static_cast<size_t>((self_id + d) % n)];
+    auto& t = g.threads[static_cast<size_t>(g.order_desc ? (self_id - d + n) % n : (self_id + d) % n)];
     if (t->state == SimThread::RUNNABLE) return t->id;
   }
   return -1;
@@ -238,6 +250,21 @@ int decide(SimThread* st, int kind, bool forced, bool can_self) {
         }
         break;
       }
+      case ST_CONFLICT: {
+        // forced switches follow the default policy, so that everything up to the preemption is the sequential schedule on
+        // which the access was recorded (same tree, same hook indexes)
+        if (!forced) {
+          for (auto& p : g.cpre) {
+            if (p.used || p.thread != st->id || p.op != st->op || p.hook != static_cast<int>(st->hook)) continue;
+            p.used = true;
+            const int n = static_cast<int>(g.threads.size());
+            if (p.to > 0 && p.to < n && g.threads[static_cast<size_t>(p.to)]->state == SimThread::RUNNABLE) { target = p.to; g.stats.preemptions++; }
+            else if (!others.empty()) { target = others[g.srng.below(others.size())]; g.stats.preemptions++; }
+            break;
+          }
+        }
+        break;
+      }
       case ST_PCT: {
         if (g.pct_next < g.pct_changes.size() && g.step >= g.pct_changes[g.pct_next]) {
           g.pct_next++;
@@ -297,6 +324,8 @@ void log_event(SimThread* st, int kind, const void* addr) {
   }
   g.h.add((g.step << 16) ^ (static_cast<uint64_t>(st->id) << 8) ^ static_cast<uint64_t>(kind));
   g.h.add((obj << 20) ^ off);
+  if (g.recording && obj != 0 && st->id != 0 && g.accesses.size() < 20000)
+    g.accesses.push_back({st->id, st->op, static_cast<int>(st->hook), kind, obj, off});
   if (g.tracing) {
     char buf[128];
     snprintf(buf, sizeof buf, "%llu t%d op%d.%u k%d obj%llu+%llu", static_cast<unsigned long long>(g.step), st->id,
@@ -425,6 +454,7 @@ const std::vector<std::string>& trace() { return g.trace; }
 void set_die_context(uint64_t seed, const char* engine) { g.seed = seed; g.engine = engine; }
 std::vector<uint32_t> thread_lengths() { return g.last_len; }
 std::vector<uint32_t> thread_hook_counts() { return g.last_hooks; }
+size_t conflict_point_count(int order_desc) { return g.conflicts[order_desc ? 1 : 0].size(); }
 
 void die(const std::string& vclass, const std::string& detail) {
   static std::atomic<int> once{0};
@@ -503,6 +533,7 @@ void run_begin(const Case& c, const std::vector<uint32_t>* measured_len) {
   if (!g.ledger.empty()) die("harness", "ledger not empty at run start (" + std::to_string(g.ledger.size()) + " blocks)");
   // strategy
   g.strategy = static_cast<int>(c.knob("strategy", ST_SEQUENTIAL));
+  g.order_desc = c.knob("order_desc", 0) != 0;
   const int64_t sparam = c.knob("sparam", 1);
   const uint64_t j = static_cast<uint64_t>(c.knob("sched_index", 0));
   g.srng = stream(c.seed, S_SCHEDULE);
@@ -526,6 +557,29 @@ void run_begin(const Case& c, const std::vector<uint32_t>* measured_len) {
         const uint32_t L = len_of(victim) + len_of(victim) / 8 + 4;
         g.pre.push_back({victim, static_cast<uint32_t>(u * L), false});
       }
+    } else if (g.strategy == ST_CONFLICT) {
+      g.cpre.clear();
+      const uint64_t program = static_cast<uint64_t>(c.knob("program_seed", -1));
+      const size_t o = g.order_desc ? 1 : 0;
+      if (g.conflicts_program[o] == program && !g.conflicts[o].empty()) {
+        if (c.knob("cidx", -1) >= 0) {  // systematic sweep: the point and the side are given
+          const auto& cp = g.conflicts[o][static_cast<size_t>(c.knob("cidx", 0)) % g.conflicts[o].size()];
+          g.cpre.push_back({cp.thread, cp.op, cp.hook + static_cast<int>(c.knob("cside", 0)), cp.writer, false});
+        } else
+        for (int64_t i = 0; i < sparam; i++) {
+          const auto& cp = g.conflicts[o][g.srng.below(g.conflicts[o].size())];
+          // just before the access (the writer gets in first) or just after it (the value read goes stale)
+          g.cpre.push_back({cp.thread, cp.op, cp.hook + (g.srng.chance(0.6) ? 1 : 0), cp.writer, false});
+        }
+        g.stats.bump("conflict_directed_schedules");
+      } else {  // nothing recorded for this program (no shared accesses, or another program ran in between): plain PB
+        g.strategy = ST_PB;
+        for (int64_t i = 0; i < sparam; i++) {
+          const int victim = 1 + static_cast<int>(g.srng.below(nthreads));
+          const uint32_t L = len_of(victim) + len_of(victim) / 8 + 4;
+          g.pre.push_back({victim, static_cast<uint32_t>(g.srng.below(L)), false});
+        }
+      }
     } else if (g.strategy == ST_PCT) {
       uint64_t total = 0;
       for (size_t t = 1; t <= nthreads; t++) total += len_of(static_cast<int>(t));
@@ -540,6 +594,8 @@ void run_begin(const Case& c, const std::vector<uint32_t>* measured_len) {
       g.rr_q = static_cast<int>(sparam < 1 ? 1 : sparam);
     }
   }
+  g.recording = !g.explicit_sched && c.knob("strategy", ST_SEQUENTIAL) == ST_SEQUENTIAL && c.knob("program_seed", -1) >= 0;
+  if (g.recording) g.accesses.clear();
   g.buggify_mask = static_cast<unsigned>(c.knob("buggify_mask", 0));
   g.buggify_p = static_cast<double>(c.knob("buggify_pct", 10)) / 100.0;
   g.buggify_budget = static_cast<int>(c.knob("buggify_budget", 4));
@@ -601,6 +657,28 @@ void run_end(Result& r) {
     } else {
       ++it;
     }
+  }
+  if (g.recording) {
+    g.recording = false;
+    const size_t o = g.order_desc ? 1 : 0;
+    auto& conflicts = g.conflicts[o];
+    conflicts.clear();
+    g.conflicts_program[o] = static_cast<uint64_t>(g.c ? g.c->knob("program_seed", -1) : -1);
+    auto is_write = [](int k) { return k == K_LOCK_CAS || k == K_LOCK_STORE || k == K_FIELD_STORE || k == K_QS_RMW || k == K_QO_RMW || k == K_QO_LINK || k == K_FAKE_STORE; };
+    auto is_victim = [](int k) { return k == K_LOCK_LOAD || k == K_FIELD_LOAD || k == K_QS_LOAD || k == K_QO_LOAD || k == K_FAKE_LOAD || k == K_LOCK_CAS || k == K_QS_RMW || k == K_QO_RMW; };
+    std::map<std::pair<uint64_t, uint64_t>, std::vector<int>> writers;  // location -> threads that write it
+    for (auto& a : g.accesses)
+      if (is_write(a.kind)) { auto& v = writers[{a.obj, a.off}]; if (std::find(v.begin(), v.end(), a.thread) == v.end()) v.push_back(a.thread); }
+    for (auto& a : g.accesses) {
+      if (!is_victim(a.kind)) continue;
+      auto it = writers.find({a.obj, a.off});
+      if (it == writers.end()) continue;
+      // only writers that have not run yet when the victim gets there under this order's default policy
+      for (int w : it->second)
+        if (w != a.thread && (o == 0 ? w > a.thread : w < a.thread) && conflicts.size() < 4000) conflicts.push_back({a.thread, a.op, a.hook, w});
+    }
+    g.stats.bump("conflict_points_recorded", conflicts.size());
+    g.stats.bump("sequential_schedules_with_conflict_points", conflicts.empty() ? 0 : 1);
   }
   r.hash = g.h.h;
   r.steps = g.step;
